@@ -28,10 +28,15 @@ func MustParseEquation(str string) (eq *Equation) {
 
 // Script creates and returns a Script that implements the equation.
 func (e *Equation) Script() *Script {
-	if e.o == nil {
-		if _, ok := e.result.(Expr); ok {
+	// A bare path, parsed or built with Get(), is a test for existence.
+	path := e
+	if e.o != nil && e.o.code == get.code && e.left != nil {
+		path = e.left
+	}
+	if path.o == nil {
+		if _, ok := path.result.(Expr); ok {
 			e2 := &Equation{
-				left:  &Equation{result: e.result},
+				left:  &Equation{result: path.result},
 				o:     exists,
 				right: &Equation{result: true},
 			}
